@@ -1,7 +1,7 @@
 """Driver: bin/check <property> --tier quick|thorough [--repo DIR]"""
 import argparse, json, os, sys, time, traceback, random
 
-from . import extract, facts, report, props
+from . import extract, facts, report, props, selftest
 from .facts import sh, fileline
 
 VERIF = os.path.dirname(os.path.dirname(os.path.abspath(__file__)))
@@ -129,6 +129,15 @@ def run_property(pid, tier, repo, seed, quiet=False):
                 break
     out_samples = out_samples[:80]
 
+    # thorough tier: the rules test themselves on the committed mutants / behaviour-preserving variants of this tree
+    selftest_summary = None
+    if tier == 'thorough' and not violations and not os.environ.get('USA_NO_SELFTEST') and os.path.exists(selftest.EXPECT):
+        try:
+            selftest_summary, problems = selftest.run(pid, repo)
+            incomplete += problems
+        except Exception as e:
+            incomplete.append('self-test could not run: %s: %s' % (type(e).__name__, e))
+
     report.clear_findings(pid)
     lines = []
     n = 0
@@ -164,6 +173,7 @@ def run_property(pid, tier, repo, seed, quiet=False):
         'extraction': ctx.extract_stats,
         'repo': repo,
         'exhaustive': bool(spec.get('exhaustive', lambda t: False)(tier)),
+        'selftest': selftest_summary if selftest_summary is not None else 'not run in this tier (thorough only)',
     }
     report.write_evidence(pid, tier, seed, level, coverage, spec.get('assumptions', []), wall, len(violations))
 
